@@ -79,3 +79,26 @@ Lemma gen_fix_nodata_nsec3 :
   fixmark_nodata_nsec3 = src ["q.Qtype == dns.TypeDS && typesSet(types, dns.TypeSOA)";
                               "q.Qtype != dns.TypeDS && typesSet(types, dns.TypeNS)"]%string.
 Proof. vm_compute. reflexivity. Qed.
+
+(* Resolver.authority: what makes a validated negative response aggressive-eligible, what sets AD
+   and what is published (= ModelAuth.authority_nsec / authority_nsec3); the two consumers of the
+   flag: the minimised walk's stop test and the cache's admission guard *)
+Lemma gen_authority_eligibility_src :
+  authority_eligibility_src = src ["if denialSecure {";
+    "if err == nil && result.Rcode == resp.Rcode {"; "aggressiveEligible = true";
+    "if err == nil && result.Rcode == resp.Rcode {"; "aggressiveEligible = true";
+    "resp.AuthenticatedData = denialSecure";
+    "if !req.CheckingDisabled && denialSecure && isNegative &&";
+    "Aggressive: aggressiveEligible,"]%string.
+Proof. vm_compute. reflexivity. Qed.
+Lemma gen_authority_walk_stop_src :
+  authority_walk_stop_src = src ["if secure && negative.Aggressive &&"; "negative.Proof != nil &&";
+    "negative.Proof.Rcode == dns.RcodeNameError &&";
+    "!dnsutil.HasNSEC3OptOut(result.Ns, negative.Zone) {"]%string.
+Proof. vm_compute. reflexivity. Qed.
+Lemma gen_authority_admission_src :
+  authority_admission_src = src ["if !w.clientScope.IsValid() && !w.requestHasECS &&";
+    "!w.requestTreeBypassesSharedDenial &&"; "!w.requestCD && !res.CheckingDisabled {";
+    "negative.Aggressive &&"; "negative.Proof != nil {";
+    "if negative.Proof.Rcode == dns.RcodeNameError {"]%string.
+Proof. vm_compute. reflexivity. Qed.
